@@ -80,3 +80,19 @@ theorem facts_clear_canary_annotations :
     Facts.clearCanaryAnnotationKeys = [K.canaryPausedAnnot, K.canaryPausedReasonAnnot, K.canaryUnpausedAnnot] := by decide
 
 end Eds
+
+namespace Eds
+open Generated
+
+/-- which annotation keys each kubectl-eds `run()` body assigns and which client write verbs it
+calls, as extracted from pkg/plugin: merge patches limited to the documented annotations, a status
+update for `fail`, nothing else. -/
+theorem facts_plugin_writes :
+    Facts.pluginWrites = [
+      ("pkg/plugin/canary/pause.go", [K.canaryPausedAnnot, K.canaryUnpausedAnnot], ["Patch"]),
+      ("pkg/plugin/canary/validate.go", [K.canaryValidAnnot], ["Patch"]),
+      ("pkg/plugin/canary/fail.go", [], ["Status.Update"]),
+      ("pkg/plugin/pause/rollingupdate.go", [K.rollingUpdatePausedAnnot], ["Patch"]),
+      ("pkg/plugin/freeze/rollout.go", [K.rolloutFrozenAnnot], ["Patch"])] := by decide
+
+end Eds
